@@ -202,6 +202,16 @@ class Verifier(Executor):
                 names.add(gc[sub.func.id])
         return names, objs
 
+    def also_modifies(self, lc, st, names, objs):
+        for nm in lc.get("also_modifies", []):
+            v = st.env.get(nm)
+            if isinstance(v, Arr):
+                objs[v.obj.id] = v.obj
+            elif isinstance(v, ListObj):
+                objs[v.id] = v
+            else:
+                names.add(nm)
+
     def havoc(self, st, names, objs, tag):
         for nm in names:
             if nm in st.env:
@@ -264,7 +274,7 @@ class Verifier(Executor):
         line = node.lineno
         idx = lc.get("index", "_i")
         names, objs = self.write_set(node.body + [ast.Assign(targets=[node.target], value=ast.Constant(0), lineno=line)], st)
-        names.discard(idx) if False else None
+        self.also_modifies(lc, st, names, objs)
         pre = st.snapshot()
         st.pre_stack = st.pre_stack + [pre]
         genv = {"_n": n}
@@ -348,6 +358,7 @@ class Verifier(Executor):
             return self.unroll_while(node, st)
         line = node.lineno
         names, objs = self.write_set(node.body + [ast.Expr(value=node.test, lineno=line)], st)
+        self.also_modifies(lc, st, names, objs)
         pre = st.snapshot()
         st.pre_stack = st.pre_stack + [pre]
         self.check_invariants(st, lc, "inv-init", {}, line)
@@ -521,6 +532,10 @@ class Verifier(Executor):
             raise VerifError("vacuous contract: requires is unsatisfiable")
         for gname in set(con.extra.get("ghost_calls", {}).values()):
             st.env[gname] = 0
+        for gname, gval in con.extra.get("ghost_init", {}).items():
+            st.env[gname] = gval
+        for gname in con.ghost:
+            st.env.setdefault(gname, st.ghost_env[gname])
         st.old = st.snapshot()
         st.old.old = st.old
         self.entry = st.old
